@@ -122,8 +122,12 @@ HookAttachingRet(p) ==
 EndpointResume(p) ==
   LET e == owner[p] IN
   IF e \in Dialer
-    THEN /\ dst' = [dst EXCEPT ![e] = "idle"]
-         /\ dSync' = [dSync EXCEPT ![e] = FALSE]
+    THEN \* only the synchronous Dial() call waits for addPipe (dst = "adding"); a redial has nothing left to do
+         \* after addPipe and is over for the dialer as soon as the connection exists (DialOK)
+         /\ IF dst[e] = "adding"
+              THEN /\ dst' = [dst EXCEPT ![e] = "idle"]
+                   /\ dSync' = [dSync EXCEPT ![e] = FALSE]
+              ELSE UNCHANGED <<dst, dSync>>
          /\ UNCHANGED <<dClosed, dActive, reconn, dRedial, lisVars>>
     ELSE /\ lst' = [lst EXCEPT ![e] = "accepting"]
          /\ UNCHANGED <<lClosed, lActive, dialVars>>
@@ -287,7 +291,9 @@ DialBegin(d) ==
 \* transport Dial succeeded with connection p: addPipe(p) runs in this call
 DialOK(d, p) ==
   /\ dst[d] = "dialing"
-  /\ dst' = [dst EXCEPT ![d] = "adding"]
+  \* (a redial - timer or `go d.redial()` - runs addPipe as its last statement: the next redial does not wait for it,
+  \* so a connection lost inside a hook that outlasts the reconnect time is redialled while that hook still runs)
+  /\ dst' = [dst EXCEPT ![d] = IF dSync[d] THEN "adding" ELSE "idle"]
   /\ NewPipeEff(p, d)
   /\ dialLog' = [dialLog EXCEPT ![d] = Append(@, <<"ok", now, reconn[d]>>)]
   /\ UNCHANGED <<now, sockClosed, async, timers, dClosed, dActive, reconn, dRedial, dSync,
@@ -581,8 +587,11 @@ NothingRemains ==
 
 \* C10 / C13: once Close has done its last step and nothing moves, no connection of the socket is left open -
 \* whatever was accepted, dialled or inside a hook while Close was under way (SpecFine; needs ProtoVerdictOK)
+\* (a dial that was in flight when Close ran may complete afterwards: its pipe is refused by the closed protocol as
+\* soon as its Attaching callback returns - "at rest" therefore also means that no callback is running)
 AllClosedAtRest ==
-  (sockClosed = "done" /\ AllQuiet) => \A p \in Pipe : pst[p] # "unborn" => closeStarted[p]
+  (sockClosed = "done" /\ AllQuiet /\ \A p \in Pipe : pst[p] \notin {"attaching", "attachedRun"})
+     => \A p \in Pipe : pst[p] # "unborn" => closeStarted[p]
 
 \* C14: no attempt after close: DialBegin is never taken when the dialer is closed
 NoAttemptAfterClose ==
